@@ -17,6 +17,25 @@ def usage_of(text):
     return ""
 
 
+def sections_of(text):
+    """the item lists of a help text with the heading each stands under: a heading is a line without indentation
+    below the usage paragraph, item lines are indented by four blanks"""
+    import re
+    tok = lambda t: [x for x in re.split(r"[^A-Za-z0-9_-]+", t) if x]
+    out, seen_usage = [], False
+    for l in text.split("\n"):
+        if l.startswith("Usage:"):
+            seen_usage = True
+            continue
+        if not seen_usage or not l.strip():
+            continue
+        if not l.startswith(" "):
+            out.append({"head": tok(l), "items": []})
+        elif l.startswith("    ") and out:
+            out[-1]["items"] += tok(l)
+    return out
+
+
 def fill_metavars(x):
     """the default metavariable of the builder, spelled out for the specification"""
     if isinstance(x, dict):
@@ -53,6 +72,7 @@ def judge_render(v, pid, hbin, fam, tag, docs=False, spec_fam=None, usage=False)
             rec = {k: x[k] for k in ("def", "path", "kind", "items", "all", "order")}
             if usage and x["kind"] == "help" and x.get("class") == "stdout":
                 rec["usage"] = usage_of(x.get("text", ""))
+                rec["sections"] = sections_of(x.get("text", ""))
             w.write(json.dumps(rec) + "\n")
     t = run_tlc("HelpModel", "HelpModel.cfg", env={"TRACE": slim, "DEFS": spath}, workers=1,
                 extra_java="-Xss1g -Dtlc2.tool.queue.IStateQueue=StateDeque", timeout=3000)
@@ -66,7 +86,7 @@ def judge_render(v, pid, hbin, fam, tag, docs=False, spec_fam=None, usage=False)
             sig = {"rule": "listing", "kind": rec["kind"],
                    "missing": sorted({classify(x) for x in prob["missing"]}), "forbidden": sorted({classify(x) for x in prob["forbidden"]}),
                    "foreign": sorted({classify(x) for x in prob["foreign"]}), "order_ok": prob["order"],
-                   "usage_ok": not prob.get("usage")}
+                   "usage_ok": not prob.get("usage"), "misplaced": sorted({classify(x[0]) + ">" + x[1].split("-")[0] for x in prob.get("misplaced", [])})}
             if prob.get("usage"):
                 prob["usage_observed"] = usage_of(rec.get("text", ""))
             v.report(sig, {"def": rec["def"], "path": rec["path"], "kind": rec["kind"], "problems": prob, "text": rec.get("text", "")[:4000]})
